@@ -85,6 +85,71 @@ def flow_names(e: ast.AST) -> List[str]:
     return source.names_in(e)
 
 
+def single_pass_substitutors(mods) -> Set[str]:
+    """names of module-level functions whose result is <Template>.safe_substitute/.substitute(...) of their arguments"""
+    out: Set[str] = set()
+    for m in mods:
+        for q, fn in m.functions.items():
+            if "." in q:
+                continue
+            for r in ast.walk(fn):
+                if isinstance(r, ast.Return) and isinstance(r.value, ast.Call) and isinstance(r.value.func, ast.Attribute) \
+                        and r.value.func.attr in ("safe_substitute", "substitute"):
+                    out.add(q)
+    return out
+
+
+def check_single_pass_expansion(ctx, mods) -> None:
+    rule = "C15.R5-single-pass-expansion-not-loop-carried"
+    subs = single_pass_substitutors(mods)
+    ctx.require("expand_vars" in subs, "anchor missing: flowir.expand_vars is no longer a Template.safe_substitute wrapper "
+                                        "(single-pass substitutors found: %s)" % sorted(subs))
+    ctx.extra["single_pass_substitutors"] = sorted(subs)
+    n = 0
+    for m in mods:
+        for q, fn in m.functions.items():
+            calls = [c for c in source.calls_in(fn) if (last_attr(c) in subs or call_name(c) in subs
+                                                        or last_attr(c) in ("safe_substitute", "substitute"))]
+            for c in calls:
+                ctxarg = c.args[1] if len(c.args) > 1 else (c.args[0] if last_attr(c) in ("safe_substitute", "substitute") and c.args else None)
+                n += 1
+                if not isinstance(ctxarg, ast.Name):
+                    ctx.ob(rule, c, True, "the substitution context is a fresh expression, not a mapping mutated in a loop",
+                           construct="%s: %s" % (q, short(c, 80)), trivial=not isinstance(ctxarg, ast.Name))
+                    continue
+                d = ctxarg.id
+                loops = [a for a in source.ancestors(c) if isinstance(a, (ast.For, ast.While)) and any(a is x for x in ast.walk(fn))]
+                carried = None
+                for lp in loops:
+                    it = lp.iter if isinstance(lp, ast.For) else None
+                    # deterministic iteration (sorted) does not depend on document order
+                    if isinstance(it, ast.Call) and call_name(it) == "sorted":
+                        continue
+                    over_mapping = it is not None and any(isinstance(x, ast.Name) and x.id == d for x in ast.walk(it))
+                    if not over_mapping:
+                        continue
+                    for x in ast.walk(lp):
+                        if isinstance(x, (ast.Assign, ast.AugAssign)):
+                            tg = x.targets if isinstance(x, ast.Assign) else [x.target]
+                            if any(isinstance(t, ast.Subscript) and isinstance(t.value, ast.Name) and t.value.id == d for t in tg):
+                                carried = x
+                        elif isinstance(x, ast.Call) and isinstance(x.func, ast.Attribute) and isinstance(x.func.value, ast.Name) \
+                                and x.func.value.id == d and x.func.attr in ("update", "setdefault", "pop", "__setitem__"):
+                            carried = x
+                        elif isinstance(x, ast.Delete) and any(isinstance(t, ast.Subscript) and isinstance(t.value, ast.Name)
+                                                               and t.value.id == d for t in x.targets):
+                            carried = x
+                    if carried is not None:
+                        break
+                ctx.ob(rule, c, carried is None,
+                       "the context '%s' is not modified while the mapping is iterated (expansion against a snapshot)" % d if carried is None else
+                       "single-pass substitution with context '%s' inside a loop over '%s' that also stores into it (%s): keys "
+                       "visited later see already-expanded values of earlier keys, so two equal documents that list the keys in a "
+                       "different order resolve differently" % (d, d, short(carried, 60)),
+                       construct="%s: %s" % (q, short(c, 80)))
+    ctx.floor(rule, n, 2, "single-pass substitution calls")
+
+
 def run(ctx) -> None:
     ctx.explanation = (
         "Order-taint (ORD) over every function of conf.py, flowir.py, dsl.py and graph.py: sets, set operations, functions "
@@ -98,6 +163,9 @@ def run(ctx) -> None:
     ctx.rule("C15.R2-variable-files-order", "variable files are layered in the order given, last one wins")
     ctx.rule("C15.R3-hash-sorted", "_memoization_info_to_hash iterates dictionaries and lists only through sorted()")
     ctx.rule("C15.R4-naming-over-ordered", "generated names (duplicate suffixes, envN) are numbered while iterating ordered containers")
+    ctx.rule("C15.R5-single-pass-expansion-not-loop-carried", "a single-pass substitution (Template.safe_substitute wrappers such as "
+             "expand_vars) applied while iterating a mapping never uses as its context a mapping that is stored into in the same "
+             "loop: otherwise values seen by later keys depend on the key order of the (equal) input document")
     ctx.assume("dict iteration order is insertion order (Python >= 3.7); traversal order inside networkx for equal graphs "
                "built in different insertion orders is not analysed")
     ctx.assume("set-typedness is inferred from constructors, set operations, annotations and functions whose every return "
@@ -132,6 +200,7 @@ def run(ctx) -> None:
                            "source in sorted() or keep an ordered container" % (h.why, q),
                            construct="%s %s" % (h.kind, short(h.node, 100)))
     ctx.extra["functions_scanned"] = n_funcs
+    check_single_pass_expansion(ctx, mods)
     ctx.floor("C15.R1-order-taint", n_hits, 10, "order-taint hits (benign + violating) - fewer means the detector lost its sources")
 
     # ---------------- R2 -------------------------------------------------------------------------------
